@@ -317,7 +317,11 @@ def compare_training(wd, lines, enc, acc, case, raw_bytes=None, keep_existing=Fa
     # ---- the structure lists: every line of Grammar/grammar.txt is a structure of the guesser's grammar and of the scorer's, with the probability written
     for folder in ('Grammar', 'Prince'):
         rows = P.read_list(os.path.join(base, folder, 'grammar.txt'), 'ascii')
-        want = [(v, float(pt)) for v, pt in rows]
+        try:
+            want = [(v, float(pt)) for v, pt in rows]
+        except ValueError:
+            fails.append(('base-file', '%s/grammar.txt is not an ASCII list of structure <tab> probability (first row %r)' % (folder, rows[:1])))
+            continue
         try:
             gb = gg if folder == 'Grammar' else P.load_guesser(base, folder='Prince')
         except Exception as e:
